@@ -155,6 +155,10 @@ def run(ck):
     wcall = [n for n in snd.calls() if name_is(n.get("callee"), ("send",)) and n.get("qualified")]
     ok = len(rcall) == 1 and len(wcall) == 1 and gs.dominated(gs.site_of(wcall[0]), {gs.site_of(rcall[0])})
     ck.ob("C07-O3", sitestr(snd), ok, "the check precedes the write of the record" if ok else "the record is written before the size check", key="send|check-after-write")
+    # what is measured is what is written: the write site adds nothing but the one newline to the encoded text
+    ck.rule("C07-O5", "bytes written per record = encode(formattedMessage()) + one newline, the quantity rotateIfNeeded measures (no padding, indentation, prefix or re-encoding at the write site)")
+    from rules.c05 import record_framing
+    record_framing(ck, S, "C07-O5")
     wr = [n for n in S.io_send.calls() if name_is(n.get("callee"), ("QIODevice::write", "QIODevice::putChar"))]
     ck.ob("C07-O3", sitestr(S.io_send), len(wr) == 1, "a record is one write (never split across a rotation)" if len(wr) == 1 else "a record is written in %d pieces" % len(wr), key="IODeviceSink::send|split-record")
 
